@@ -1,5 +1,5 @@
 """C19 — try_first / try_last priorities are honoured among ready tasks."""
-from impl import sorter_api
+from impl import engine, sorter_api
 
 ASSUMPTIONS = [
     "networkx ancestors/in_degree/find_cycle trusted (cross-checked against the model on every case)",
@@ -9,14 +9,81 @@ ASSUMPTIONS = [
 KINDS = {"prio", "size"}
 
 
+def prio_of(t):
+    return 1 if "try_first" in t["marks"] else (-1 if "try_last" in t["marks"] else 0)
+
+
+def e2e_oracle(hist, records):
+    """From the spec graph and the observed protocol order: whenever a task is started, no task of a higher priority class
+    was ready (all its spec-level ancestors already processed) and still waiting."""
+    bad = []
+    for rec in records:
+        if rec["step"][0] != "build":
+            continue
+        spec, obs = rec["spec"], rec["obs"]
+        both = [t["id"] for t in spec["tasks"] if "try_first" in t["marks"] and "try_last" in t["marks"]]
+        if both:
+            if obs.get("raised") or obs.get("exit") != 3 or engine.executed(obs):
+                bad.append(("reject", f"task(s) {both} carry try_first and try_last: expected collection failure (exit 3, nothing executed), "
+                                      f"got exit {obs.get('exit')} raised={obs.get('raised')} executed={engine.executed(obs)}", None))
+            continue
+        if obs.get("raised") or obs.get("exit") not in (0, 1):
+            continue
+        order = [engine.name_to_id(r[0]) for r in obs["reports"]]
+        edges = engine.spec_task_edges(spec)
+        anc = {t["id"]: engine.closure(edges, t["id"], forward=False) for t in spec["tasks"]}
+        pr = {t["id"]: prio_of(t) for t in spec["tasks"]}
+        done = set()
+        for x in order:
+            for y in pr:
+                if y not in done and y != x and pr[y] > pr[x] and anc[y] <= done:
+                    bad.append(("prio-e2e", f"task {x} (priority {pr[x]}) was started while task {y} (priority {pr[y]}) was ready and waiting "
+                                            f"(protocol order {order})", None))
+                    break
+            done.add(x)
+    return bad
+
+
+def e2e_histories(ctx):
+    rng = ctx.rng
+    hs = []
+    both = {"tag": "corpus-both-marks", "spec": {"tasks": [
+        {"id": 0, "module": 0, "deps": [], "prods": [20], "after": [], "marks": ["try_first", "try_last"], "beh": "ok", "style": "default"},
+        {"id": 1, "module": 0, "deps": [], "prods": [21], "after": [], "marks": [], "beh": "ok", "style": "default"}],
+        "versions": {"0": 0}, "inputs": {}}, "steps": [["build", {}]]}
+    hs.append(both)
+    for _ in range(ctx.scale(50, 600)):
+        spec = engine.gen_spec(rng, nt=(3, 8), after_p=0.2, after_needs_prods=True, dens=0.35,
+                               marks=(("try_first", 0.3), ("try_last", 0.3)))
+        hs.append({"tag": "rand", "spec": spec, "steps": [["build", {}]]})
+    return hs
+
+
 def run(ctx):
-    ctx.rule = ("op sequences new/get_ready(n)/done(xs)/from_dag_and_sorter on the real TopologicalSorter; exhaustive small scope + seeded "
+    ctx.rule = ("(a) op sequences new/get_ready(n)/done(xs)/from_dag_and_sorter on the real TopologicalSorter; exhaustive small scope + seeded "
                 "random bipartite DAGs ≤12 tasks; non-trivial = ≥2 non-empty get_ready answers and (≥2 distinct priorities or ≥1 edge); "
-                "distinct by canonical (graph, priorities, n-sequence, policy, observed op trace)")
+                "distinct by canonical (graph, priorities, n-sequence, policy, observed op trace); "
+                "(b) generated projects with try_first/try_last marks built through pytask.build under several PYTHONHASHSEEDs: observed protocol order "
+                "checked against the ready sets reconstructed from the spec and replayed in the Lean engine; both marks on one task ⇒ exit 3")
     sorter_api.campaign(ctx, KINDS)
+    hs = e2e_histories(ctx)
+
+    def nontrivial(h, recs):
+        return len({prio_of(t) for t in h["spec"]["tasks"]}) >= 2
+
+    engine.run_campaign(ctx, hs[:1], e2e_oracle, nontrivial=nontrivial, compare_model=False)   # both marks: rejected at collection
+    engine.run_campaign(ctx, hs[1:], e2e_oracle, nontrivial=nontrivial)
 
 
 def replay(ctx, obj):
+    if obj["input"].get("layer") == "engine-e2e":
+        h = obj["input"]["history"]
+        engine.run_campaign(ctx, [h] * 4, e2e_oracle, compare_model=not h.get("tag", "").startswith("corpus-both"))
+        if ctx.violations:
+            return False, ctx.violations[0]["what"]
+        if ctx.disagreements:
+            return False, ctx.disagreements[0]["what"]
+        return True, "priority rule holds on the stored project"
     case = obj["input"]["case"]
     traces = sorter_api.run_workers([case], [obj.get("seed", 0) + 1])
     sorter_api.check_traces(ctx, [case], traces, KINDS)
